@@ -40,7 +40,9 @@ func alphabet(keys []string, thorough bool, inmemory bool) []kvh.Op {
 		ops = append(ops, kvh.Op{Kind: "put", Key: k, Val: 2, Exp: 3}, kvh.Op{Kind: "cas", Key: k, Val: 3, Exp: 3, Ver: kvh.VCurrent})
 		ops = append(ops, kvh.Op{Kind: "wait", Key: k, Ver: kvh.VCurrent})
 		// expiration instants that no int64 of nanoseconds can hold: the "never" sentinel 9999-12-31 (in the future: served) ...
-		ops = append(ops, kvh.Op{Kind: "put", Key: k, Val: 2, Exp: 4}, kvh.Op{Kind: "cas", Key: k, Val: 3, Exp: 4, Ver: kvh.VCurrent})
+		if inmemory || thorough { // (over Redis every transition is a batch of round trips: the quick tier keeps the sentinel for the in-memory backend)
+			ops = append(ops, kvh.Op{Kind: "put", Key: k, Val: 2, Exp: 4}, kvh.Op{Kind: "cas", Key: k, Val: 3, Exp: 4, Ver: kvh.VCurrent})
+		}
 		if inmemory {
 			// ... and 1000-01-01 (in the past: the write succeeds and the record is gone). Not over Redis, whose smallest TTL is 1ms.
 			ops = append(ops, kvh.Op{Kind: "put", Key: k, Val: 2, Exp: 5}, kvh.Op{Kind: "create", Key: k, Val: 2, Exp: 5})
